@@ -193,6 +193,9 @@ def Score.finish (sc : Score) (s : Sender) (tailtime : Rat) : Except Err (Score 
     let sc' ← sc.add s [timePV tt, tailMsg]
     pure ({ sc' with finished := true }, sc'.entries.map (·.bndl), (sc'.entries.map (·.raw)).flatten)
 
+/-- `OscScore.duration`: the time (seconds) of the latest bundle (`peek(smallest=False)`) -/
+def Score.duration (sc : Score) : Option Rat := sc.entries.getLast?.map (·.time)
+
 /-- a run of the NRT interface: a sequence of `send_bundle` calls, then `process(tailtime)` -/
 def Score.addAll (sc : Score) : List (Sender × List PV) → Score
   | [] => sc
